@@ -102,3 +102,9 @@ claim("C03",
       "Static necessary conditions of 'private keys usable only with the current passphrase; Lock wipes them', on every CFG path: unlock, export, delete, private/public passphrase change and import store their effects only behind the success edge of a check of the caller's passphrase against the stored credential (salted hash or scrypt digest); a keystore is created/imported only under the passphrase that an existing keystore accepts (same variable as the one it is stored under); the stored credential and the unlocked flags are written only by unlock/change/load/erase; clearPrivKeys zeroes every private-hierarchy field that any function fills (and drops the pointers other code tests for nil) and Lock applies it to every keystore; every scrypt key derived from the private passphrase is zeroed or consumed by unlocking on all paths to the operation's return (found D4, fixed); passphrase change covers all keystores in one transaction; Unlock marks the manager unlocked only if no keystore failed; a keystore added to an unlocked manager is unlocked with it.",
       "Trusted: go/ssa, snacl.SecretKey.DeriveKey verifies the digest, private-hierarchy fields identified by struct field name. NOT decided: behaviour after a restart as a value fact, effectiveness of zeroing at machine level (GC copies), partial unlock when a later keystore fails for a non-passphrase reason, timing side channels.",
       "DESIGN.md §4 C03")
+
+claim("C02",
+      "error-flow on storage reads + writer/reader key-table agreement + loader provenance (backward slices) + memory↔store pairing with must-pass-through",
+      "Static necessary conditions of 'closing and reopening presents the same wallet', for all paths: (ERR) no bucket read error in the keystore package is swallowed or turned into an absent key (found fetchCryptoKeys/fetchMasterHDKeys/duplicate-seed drops, fixed); (KEYS) every key any operation writes is read back by the open/load path (or export) and every key the loader needs is written at creation and import; (PROV) each field of the reloaded AddrManager derives from the read of its own key with the right branch polarity, and a reloaded address takes branch/index/key from one stored entry; (PAIR) for every mutating operation a durable key written in its transaction has its memory field refreshed before every successful return, and vice versa (argument-sensitive put summaries); (OPEN) opening loads every listed keystore under its own id, fails as a whole, and decrypts only behind DeriveKey(public passphrase) on the stored parameters.",
+      "Trusted: go/ssa, goleveldb, frozen field↔key pairing table. NOT decided: equality of the reopened image with the running one as values for all histories; the store's own recursive bucket deletion (poc/wallet/db/ldb) — see seed C02-b; content of encrypted blobs.",
+      "DESIGN.md §4 C02")
